@@ -835,7 +835,41 @@ let op_pp r = function
   | _ -> failwith "pp: fields"
 
 (* ---------- op: html (C17) ---------- *)
-let op_html r = function
+(* the whole document, byte for byte (Model/HtmlPage.v) *)
+let html_meta_of (s : string) : M.snap_meta =
+  let list_of f x = List.map f (split_on ',' x) in
+  let kv x = match String.split_on_char ':' x with
+    | [k; v] -> (bytes_of_hex k, bytes_of_hex v) | _ -> failwith "html: meta entry" in
+  match String.split_on_char ';' s with
+  | [lroot; rroot; paths; rpaths; mods] ->
+    { M.localGOROOT = bytes_of_hex lroot; localGOPATHs = list_of bytes_of_hex paths; remoteGOROOT = bytes_of_hex rroot;
+      remoteGOPATHs = list_of kv rpaths; localGomods = list_of kv mods }
+  | _ -> failwith "html: meta"
+
+let html_page r mode ver values err meta footer now maxprocs doc =
+  if not (starts_with err "PANIC") && not (starts_with err "ERR") then begin
+    let env = { M.pe_ver = bytes_of_hex ver; pe_now = bytes_of_hex now; pe_maxprocs = z_of_dec maxprocs; pe_footer = bytes_of_hex footer } in
+    let mt = html_meta_of meta in
+    let m = if mode = "agg" then M.render_page_buckets env mt (buckets_of (parse_sx values))
+            else M.render_page_goroutines env mt (goroutines_of (parse_sx values)) in
+    let ms = string_of_bytes m and is = unhex doc in
+    tag r (Printf.sprintf "mods=%d" (min 5 (List.length mt.M.localGomods)));
+    tag r (Printf.sprintf "gopaths=%d" (min 3 (List.length mt.M.localGOPATHs)));
+    if footer <> "x" then tag r "footer";
+    if String.length is > 40000 then tag r "long";
+    if ms <> is then begin
+      flag r "corr:html-page";
+      let i = ref 0 in
+      while !i < String.length ms && !i < String.length is && ms.[!i] = is.[!i] do incr i done;
+      let ctx s = String.escaped (String.sub s (max 0 (!i - 30)) (min 70 (String.length s - max 0 (!i - 30)))) in
+      r.detail <- Printf.sprintf "page differs at %d: model [%s] impl [%s]" !i (ctx ms) (ctx is)
+    end
+  end
+
+let rec op_html r = function
+  | [mode; ver; values; attrs; skel; scheme; complete; err; det; region; meta; footer; now; maxprocs; doc] ->
+    op_html r [mode; ver; values; attrs; skel; scheme; complete; err; det; region];
+    html_page r mode ver values err meta footer now maxprocs doc
   | [mode; ver; values; attrs; skel; scheme; complete; err; det; region] ->
     tag r ("mode=" ^ mode);
     (* the whole dynamic region, byte for byte *)
@@ -938,10 +972,11 @@ let op_guess r = function
         if e <> "?" then
           (match String.split_on_char '|' e with
            | [cls; el; er; ei] ->
-             if loc_to c.M.cLocation <> cls then flag r "prop:C18:location-class";
-             if local <> unhex el then flag r "prop:C18:local-path";
-             if rel <> unhex er then flag r "prop:C18:relative-path";
-             if string_of_bytes c.M.cImportPath <> unhex ei then flag r "prop:C18:import-path";
+             (* "*" = this field is not predicted by the layout *)
+             if cls <> "*" && loc_to c.M.cLocation <> cls then flag r "prop:C18:location-class";
+             if el <> "*" && local <> unhex el then flag r "prop:C18:local-path";
+             if er <> "*" && rel <> unhex er then flag r "prop:C18:relative-path";
+             if ei <> "*" && string_of_bytes c.M.cImportPath <> unhex ei then flag r "prop:C18:import-path";
              if cls <> "0" then tag r "resolved"
            | _ -> failwith "expect")) exps calls;
       (* each detected remote root is a prefix of a frame it explains *)
@@ -1028,19 +1063,23 @@ let op_handler r = function
   | [meth; maxmem; augment; similarity; i_status; complete; dlen] ->
     tag r ("status=" ^ i_status);
     (* a dump larger than the first buffer: the model's capture loop says whether it is captured whole *)
+    let truncated = ref false in
     (if dlen <> "0" then begin
        tag r "big";
        let z s = z_of_dec s in
        match M.capture (z (unhex maxmem)) (z dlen) with
        | Some (_, n) ->
-         if n = z dlen then (if i_status <> "200" then flag r "prop:C20:dump-fits-but-not-served")
-         else tag r "truncated"
+         if n = z dlen then (if i_status <> "200" && complete <> "H" then flag r "prop:C20:dump-fits-but-not-served")
+         else (tag r "truncated"; truncated := true)
        | None -> flag r "model:capture-out-of-fuel"
      end);
     if complete = "A" then flag r "prop:C20:augment-parameter-not-honoured";
-    let st = M.handler (bytes_of_hex meth) (bytes_of_hex maxmem) (bytes_of_hex augment) (bytes_of_hex similarity) (fun _ _ -> false) in
+    if complete = "H" then flag r "prop:C20:handler-does-not-answer";
+    (* a capture cut by maxmem may end mid-line: the scan may then fail (500) or not; otherwise it does not fail *)
+    let st = M.handler (bytes_of_hex meth) (bytes_of_hex maxmem) (bytes_of_hex augment) (bytes_of_hex similarity)
+               (fun _ _ -> !truncated && i_status = "500") in
     let m = string_of_int (int_of_nat (M.status_class st)) in
-    if m <> i_status then (flag r "corr:handler"; r.detail <- Printf.sprintf "model %s impl %s" m i_status);
+    if m <> i_status && complete <> "H" then (flag r "corr:handler"; r.detail <- Printf.sprintf "model %s impl %s" m i_status);
     (* C20 on the implementation alone: 405 iff not GET; valid parameters => 200 with a complete page; invalid => 4xx *)
     if complete = "0" then flag r "prop:C20:incomplete-page";
     if complete = "P" then flag r "impl:panic"
